@@ -2771,7 +2771,33 @@ impl<'a, R: FileManager> FrontendCtx<'a, R> {
         }
     }
 
+    // `declare const a: typeof b; declare const b: typeof a;` never reaches an initializer: the type
+    // queries themselves are bounded like `typeof_expr`
     fn extract_type_query(
+        &mut self,
+        ty: &TsTypeQuery,
+        file: BffFileName,
+        visibility: Visibility,
+    ) -> Res<Runtype> {
+        if self.typeof_depth >= 128 {
+            let anchor = Anchor {
+                f: file.clone(),
+                s: ty.span,
+            };
+            return self.error(
+                &anchor,
+                DiagnosticInfoMessage::AnyhowError(
+                    "Expression refers to itself or is nested too deeply".to_string(),
+                ),
+            );
+        }
+        self.typeof_depth += 1;
+        let res = self.extract_type_query_step(ty, file, visibility);
+        self.typeof_depth -= 1;
+        res
+    }
+
+    fn extract_type_query_step(
         &mut self,
         ty: &TsTypeQuery,
         file: BffFileName,
